@@ -335,6 +335,7 @@ class C07(Check):
 
     def must_fire(self):
         return [
+            Variant("constants-frozen-from-free-inputs", MOD, GEN, "if moving.isdisjoint(args):", "if True:", expect="G11|", quick=True),
             Variant("declaration-order-again", MOD, GEN, "for name in model._create_cache().order:", "for name in [*derived_by_name, *reactions_by_name]:", expect="G1|", quick=True),
             Variant("no-initial-assignment-parameters", MOD, GEN,
                     "    for name in model.get_parameter_names():\n        if name not in parameters:\n            parameters[name] = all_parameter_values[name]\n", "", expect="G2|", quick=True),
